@@ -12,7 +12,7 @@ def sig(rec, clauses):
 def run(c):
     th = c.thorough()
     c.rule = ("model: every 3x3 pattern (quick tier: a seed-rotated quarter) x every contiguous partition (empty ranks included) for 1-2 ranks, a seed-rotated "
-              "1/64 of the patterns (all of them in the thorough tier) for 3 ranks, every 2x3 pattern x every independent "
+              "1/64 of the patterns (a quarter of them in the thorough tier) for 3 ranks, every 2x3 pattern x every independent "
               "row/column partition for 1-2 ranks, each under every rank interleaving and message arrival order; "
               "code: mpirun -n {1,2,3,5} (thorough 1..8) over the same mask-enumerated spaces plus seeded random integer "
               "matrices (rectangular too) with random partitions; a recorded case is non-trivial when at least one rank "
@@ -34,9 +34,9 @@ def run(c):
         # three state spaces side by side (distinct cfg files so that the derived configs do not collide)
         c.parallel([
             lambda: c.tlc_model("DistMatrixModel", constants=dict(base, MinNP=1, MaxNP=2, MaskStride=1 if th else 4, MaskOff=0 if th else off % 4),
-                                workers=6),
+                                workers=6, coverage=False),     # (-coverage slows TLC down several times: collected on the small space only)
             lambda: c.tlc_model("DistMatrixModel", cfg="DistMatrixModel3.cfg",
-                                constants=dict(base, MinNP=3, MaxNP=3, MaskStride=1 if th else 64, MaskOff=0 if th else off), workers=6, timeout=2400),
+                                constants=dict(base, MinNP=3, MaxNP=3, MaskStride=4 if th else 64, MaskOff=off % 4 if th else off), workers=6 if not th else 12, timeout=2400, coverage=False),
             lambda: c.tlc_model("DistMatrixModel", cfg="DistMatrixModelRect.cfg",
                                 constants={"N": 2, "M": 3, "SamePart": "FALSE", "MinNP": 1, "MaxNP": 2,
                                            "MaskStride": 1 if th else 2, "MaskOff": 0 if th else off % 2}, workers=4)])
